@@ -192,3 +192,146 @@ Proof. eexists. vm_compute. repeat split; reflexivity. Qed.
 Lemma capture_before_flush_rejected_now :
   snd (run_from (cfg2 true) init_state trace_capture_before_flush 0) = Some (54, R_PC).
 Proof. vm_compute. reflexivity. Qed.
+
+(* ---------- a follower behind its leader's compacted log: the snapshot the leader sends is installed ---------- *)
+
+(* the Ready that carries the incoming snapshot (and the new commit index, nothing else) *)
+Definition rdy_snap (i : N) : ready := mkReady 0 0 0 true false i 0 0 0 i.
+(* the checkpoint is fetched from a replica that has it, or is found on the local disk *)
+Definition ev_fetch (i : N) : list event := [EvFsMark i; EvFsCopy i; EvFsComplete i].
+(* processReady / applySnapshot / persistRaftState / RestoreFromSnapshot / raftStorage.ApplySnapshot, in the order
+   one installation takes when nothing else interleaves; a = the applied index before *)
+Definition ev_install (a i : N) (fetch : list event) : list event :=
+  [EvRdBegin (rdy_snap i); EvRdPublish 0 i i; EvApBefore a 0 i] ++ fetch ++
+  [EvAsPrepared i; EvRdSaveSnapBefore i; EvRdSnapFile i; EvRdSaveSnapAfter i; EvRdSaveBefore; EvRdSaveAfter;
+   EvRdApplySnapBefore i; EvAsRaftDone i; EvRsRemoved i; EvRsCopied i; EvRsMarkerGone; EvAsRestored i;
+   EvRdApplySnapAfter i; EvRdReleaseAfter i; EvRdAppendAfter; EvRdAdvance;
+   EvApAfter i; EvApRaftDone i; EvApTriggerBefore i i; EvApTriggerAfter i i].
+
+(* a replica with a local snapshot at 5 and the entry 6, whose leader has compacted its log up to 9 *)
+Definition trace_follower_base : list event :=
+  ev_write 1 0 true false ++ ev_write 2 0 false true ++ ev_write 3 0 false false ++ ev_write 4 0 false true
+  ++ ev_write_snap 5 0 false false ++ ev_sn_to_file 5 ++ ev_sn_rest 5
+  ++ [EvPgBefore 3; EvPgAfter 3]
+  ++ ev_write 6 5 false false.
+Definition trace_install : list event := trace_follower_base ++ ev_install 6 9 (ev_fetch 9).
+
+Lemma install_example :
+  exists s, run (cfg2 true) init_state trace_install = Ok s
+    /\ sched_holds_run (cfg2 true) init_state trace_install = true
+    /\ engine s = Some [1; 2; 3; 4; 5; 6; 7; 8; 9] /\ applied s = 9 /\ rs_last s = 9 /\ snapfiles s = [9; 5]
+    /\ recover_state s 0 0 = Ok [1; 2; 3; 4; 5; 6; 7; 8; 9].
+Proof. eexists. vm_compute. repeat split; reflexivity. Qed.
+
+(* the events of startRaft on the state a process death left (what [restart_succeeds] shows to be enabled) *)
+Definition restart_evs (s : state) : list event :=
+  let pre := match restoring s, engine s with Some i, None => [EvRsRemoved i; EvRsCopied i] | _, _ => [] end in
+  match choose_snapshot (segs s) (snapfiles s) with
+  | Some m =>
+    match read_all (segs s) m with
+    | Ok (ents, cm) => pre ++ [EvRcChosen m; EvRsRemoved m; EvRsCopied m; EvRcRestored m; EvRcReplay (N.of_nat (length ents)) (last_of ents) cm]
+    | Err _ => []
+    end
+  | None =>
+    match read_all (segs s) 0 with
+    | Ok (ents, cm) => pre ++ [EvRcNone; EvRcReplay (N.of_nat (length ents)) (last_of ents) cm]
+    | Err _ => []
+    end
+  end.
+Definition crash_restart (c : config) (s : state) (j extra : nat) : result state :=
+  match step c s (EvCrash j extra) with Ok s1 => run c s1 (restart_evs s1) | Err e => Err e end.
+(* the leader sends its snapshot (again) unless the replica holds it already *)
+Definition converge (c : config) (s : state) (i : N) : result state :=
+  if i <=? applied s then Ok s
+  else run c s (ev_install (applied s) i (match lookup i (ckpts s) with Some _ => [EvFsLocalOk i] | None => ev_fetch i end)).
+
+Definition eq_listN (a b : list N) : bool := Nat.eqb (length a) (length b) && forallb (fun p => fst p =? snd p) (combine a b).
+Definition serves (s : state) (k : N) : bool :=
+  running s && (applied s =? k) && match engine s with Some l => eq_listN l (range 0 k) | None => false end.
+
+(* killed after the first n events of the installation (every n), with every crash image of that instant (j buffered
+   records lost, extra records of a Save in flight written): the restarted replica serves the state at 5 or at 9,
+   and after the leader's snapshot is installed (again, if need be) it serves the leader's state at 9, which is
+   also what a further restart would serve *)
+Definition install_crash_check (n j extra : nat) : bool :=
+  match run (cfg2 true) init_state (trace_follower_base ++ firstn n (ev_install 6 9 (ev_fetch 9))) with
+  | Err _ => false
+  | Ok s =>
+    match image s j extra with
+    | None => true
+    | Some _ =>
+      match crash_restart (cfg2 true) s j extra with
+      | Err _ => false
+      | Ok s1 =>
+        (serves s1 5 || serves s1 9)
+        && match converge (cfg2 true) s1 9 with
+           | Ok s2 => serves s2 9 && match recover_state s2 0 0 with Ok l => eq_listN l (range 0 9) | Err _ => false end
+           | Err _ => false
+           end
+      end
+    end
+  end.
+
+Lemma install_converges_at_every_crash_point :
+  forallb (fun n => forallb (fun j => forallb (fun extra => install_crash_check n j extra) (seq 0 3)) (seq 0 3))
+          (seq 0 (S (length (ev_install 6 9 (ev_fetch 9))))) = true.
+Proof. vm_compute. reflexivity. Qed.
+
+(* ---------- what the model of the installation does not cover, and why its hypotheses are needed ---------- *)
+
+(* OPEN FINDING (known_findings.d/recover.jsonl). The path model follows Readys in which an incoming snapshot comes
+   alone (ready_ok); the raft library may also hand out a Ready with the snapshot S AND entries above S, which
+   persistRaftState writes in one wal.Save: snapshot record, entries, hard state. A death between the entry records
+   and the hard state leaves the WAL image below: the record of 9 is not valid (the last saved commit is 2), the
+   restart reads from the older snapshot and meets entry 10 after entry 2: index out of range, the node does not
+   start (with the hard state written, or without the entries, it does) *)
+Definition wal_snapshot_and_entries (hs : bool) : list seg :=
+  [mkSeg 0 ([RSnap 0; REnt 1; REnt 2; RState 2; RSnapIn false 2 9; REnt 10; REnt 11] ++ (if hs then [RState 11] else []))].
+Definition wal_snapshot_alone : list seg := [mkSeg 0 [RSnap 0; REnt 1; REnt 2; RState 2; RSnapIn false 2 9]].
+
+Lemma snapshot_and_entries_refuted :
+  recover (wal_snapshot_and_entries false) [9] [(9, Some (range 0 9))] = Err E_OUT_OF_RANGE
+  /\ recover_isolated (wal_snapshot_and_entries false) [9] [(9, Some (range 0 9))] = Err E_OUT_OF_RANGE
+  /\ recover (wal_snapshot_and_entries true) [9] [(9, Some (range 0 9))] = Ok (range 0 11)
+  /\ recover wal_snapshot_alone [9] [(9, Some (range 0 9))] = Ok [1; 2].
+Proof. vm_compute. repeat split; reflexivity. Qed.
+
+(* such a Ready is outside the model: the acceptor rejects its event with R_ENV ("not followed"), it does not pass *)
+Lemma snapshot_ready_carries_no_entries : forall s r, ready_ok s r = true -> 0 < r_snap r -> r_n r = 0 /\ r_cn r = 0.
+Proof.
+  intros s r H Hs. unfold ready_ok in H. apply N.ltb_lt in Hs. rewrite Hs in H.
+  repeat (apply andb_true_iff in H; destruct H as [H ?]).
+  repeat match goal with G : _ && _ = true |- _ => apply andb_true_iff in G; destruct G end.
+  repeat match goal with G : (_ =? _) = true |- _ => apply N.eqb_eq in G end. auto.
+Qed.
+
+(* the second schedule hypothesis is needed: the backup loop's purgeOldCheckpoint takes the latest snapshot index as
+   the bound below which it removes; UpdateSnapshotState sets it to the incoming snapshot's index when the snap file
+   and the WAL record are written, before the hard state that makes the record valid. With two local checkpoints whose
+   snapshot goroutines have not written their markers yet (6, 7) and the purge starting in that window, the checkpoint
+   of the newest valid snapshot (5) is removed; the process dies before the hard state: no backup to restore from.
+   The acceptor's check is false on this run *)
+Definition trace_ckpt_purge_in_window : list event :=
+  ev_write 1 0 true false ++ ev_write 2 0 false true ++ ev_write 3 0 false false ++ ev_write 4 0 false true
+  ++ ev_write_snap 5 0 false false ++ ev_sn_to_file 5 ++ ev_sn_rest 5
+  ++ [EvPgBefore 3; EvPgAfter 3]
+  ++ ev_write_snap 6 5 false false
+  ++ ev_rd 7 false false ++ ev_ap 7 6 ++ [EvCkFlush; EvCkSaveBefore; EvCkSaveAfter; EvSnStarted 7; EvApTriggerAfter 7 7]
+  ++ [EvRdBegin (rdy_snap 9); EvRdPublish 0 9 9; EvApBefore 7 0 9] ++ ev_fetch 9
+  ++ [EvAsPrepared 9; EvRdSaveSnapBefore 9; EvRdSnapFile 9; EvRdSaveSnapAfter 9; EvCkPurgeBefore; EvCkPurgeAfter].
+
+Lemma ckpt_purge_in_window_refuted :
+  exists s, run (cfg2 true) init_state trace_ckpt_purge_in_window = Ok s
+    /\ acked s = 7 /\ map fst (ckpts s) = [9; 7; 6] /\ recover_state s 0 0 = Err E_NO_BACKUP
+    /\ sched_holds_run (cfg2 true) init_state trace_ckpt_purge_in_window = false.
+Proof. eexists. vm_compute. repeat split; reflexivity. Qed.
+
+(* ---------- replay does not depend on how the entries are grouped ---------- *)
+
+(* the state the model serves is the list of the applied indices; applying the entries a+1..b and then b+1..c (two
+   Readys, two apply batches) gives what applying a+1..c at once gives, so what a restart serves does not depend on how
+   raft groups the replayed entries into Readys nor on how the apply loop groups them into batches. That a batch of
+   commands written as one engine write batch equals the commands applied one by one is C07 (coq/Determ: batch_equiv,
+   coq/Data/Batch.v): the model's engine takes it as its interface *)
+Lemma replay_grouping : forall a b c, a <= b -> b <= c -> range a b ++ range b c = range a c.
+Proof. intros a b c H1 H2. symmetry. apply range_app; assumption. Qed.
